@@ -126,6 +126,7 @@ func c05Policies(tier string) []GCPolicy {
 		{Untagged: true, Dangling: false, WithSubj: true, EmptyRepo: true},
 		{Untagged: true, Dangling: true, WithSubj: false, EmptyRepo: false},
 		{Untagged: true, Dangling: true, WithSubj: true, EmptyRepo: true},
+		{Untagged: false, Dangling: true, WithSubj: false, EmptyRepo: false}, // only dangling referrers are collected (e510c2e)
 	} {
 		for _, g := range graces {
 			p.Grace, p.Freq = g, 15*time.Minute
